@@ -63,15 +63,25 @@ def shard_t16(cfgname, pos, lo, hi, seed):
     return acc
 
 
+_CORPUS = []
+
+
 def harvest_words():
-    """instruction words used by the repository's own tests (seed corpus)"""
+    """instruction words used by the repository's own tests (seed corpus), split into ARM / Thumb by test name"""
+    if _CORPUS:
+        return _CORPUS[0]
     arm, thumb = set(), set()
     for f in glob.glob('/repo/tests/**/*.py', recursive=True):
         src = open(f).read()
-        for m in re.finditer(r'opcode\s*=\s*(0b[01_]+|0x[0-9a-fA-F_]+)', src):
-            v = int(m.group(1).replace('_', ''), 0)
-            (thumb if ('thumb' in f.lower() or '_t1' in f or '_t2' in f or '_t3' in f or '_t4' in f) else arm).add(v)
-    return sorted(arm), sorted(thumb)
+        for block in re.split(r'\ndef ', src):
+            name = block.split('(')[0]
+            is_thumb = bool(re.search(r'_t[1-4](_|$)', name)) or 'thumb' in name or 'opcode_len = 16' in block
+            params = re.findall(r'\(\s*(0b[01_]{16,32}|0x[0-9a-fA-F_]{4,8})\s*,', block)
+            for m in re.findall(r'opcode\s*=\s*(0b[01_]+|0x[0-9a-fA-F_]+)', block) + params:
+                v = int(m.replace('_', ''), 0)
+                (thumb if is_thumb else arm).add(v)
+    _CORPUS.append((sorted(arm), sorted(thumb)))
+    return _CORPUS[0]
 
 
 def shard_words(cfgname, kind, seed, count, hooked=False):
